@@ -93,4 +93,16 @@ CLAIMS = {
         "note": "Trusted: Lean kernel; decoders hand-written from the layouts (tied by the image run on real directories); T19.2 conservation law of the free-list model itself is a stretch item.",
         "technique": "Lean 4 theorems on the page-ownership monitor + the monitor evaluated by the Lean driver on real directory images + frontier cycles",
     },
+    "C07": {
+        "text": "Lean mirrors of MultiProof::from_path_proofs, verify_multi_proof (verify_range incl. the std branch-free binary search), find_index_for / confirm_*, verify_multi_proof_update (CommonSiblings, hash_and_compact_terminal) with every panic site explicit. Kernel-checked: T7.1 every accepted path was hashed along the first depth bits of its own terminal; T7.2a-c find_index_for returns the unique covering path and confirm_* are its terminal tests; T7.3 binary search = partition point; T8.2 full multi-proof soundness under Hasher.Sound. The real functions run on honest sets and ~30 kinds of mutated objects; verdicts, inner structure, confirmations and update roots must equal the mirror line by line, the truth set, the single-path verifier and the reference root of the updated set.",
+        "design_ref": "§4 C07",
+        "note": "Trusted: Lean kernel; Hasher.Sound; NOT yet theorems (held by the differential and its oracles): completeness of find_index_for and of from_path_proofs, root-correctness of the multi-proof update (T7.3 of DESIGN).",
+        "technique": "Lean 4 theorems on the multi-proof mirror (alignment, unique covering path, soundness) + line-by-line differential with three independent oracles",
+    },
+    "C20": {
+        "text": "Lock protocol model (open = atomic flock then files; drop = drain I/O then unlock; kill): T20.1 at most one non-idle process in every reachable state of every interleaving, T20.2 a refused open returns the directory unchanged, T20.3 no write takes effect without the lock and the directory can be opened again after endDrop / kill. Real runs: creation races, refused opens from the same process / racing threads / another process with directory fingerprints, strace of a refused open, reopen right after drop, after a poisoned handle and after kill -9.",
+        "design_ref": "§4 C20",
+        "note": "Trusted: Lean kernel; OS flock semantics; schedules sampled. Observation (not a violation of the stated property): the documented TOCTOU in Store::open lets a creation race end with no winner and a directory that holds only .lock.",
+        "technique": "Lean 4 theorems (invariant over all interleavings of the lock protocol) + thread/process races, directory fingerprints and strace on the real code",
+    },
 }
